@@ -44,7 +44,11 @@ view == <<pub, cli, cl, dl, mono, last, n, plan>>
 
 NoPub == [on |-> FALSE, root |-> 1, rot |-> "none", ver |-> [ts |-> 0, sn |-> 0, tg |-> 0],
           tset |-> Absent, files |-> {}, extra |-> FALSE, exp |-> Fresh]
-NoCli == [ts |-> 0, sn |-> 0, sntg |-> 0, tg |-> 0]
+NoCli == [ts |-> 0, sn |-> 0, sntg |-> 0, tg |-> 0, epTs |-> 0, epSn |-> 0]
+\* epTs / epSn: which online keys signed the stored timestamp / snapshot (1: the keys of root 1, 2: the keys a
+\* transfer with kind "online" introduced, 0: nothing stored); a stored document whose signature does not verify
+\* under the root in force is ignored by the rollback checks (and stays in the datastore until overwritten)
+Epoch == IF pub.rot = "online" THEN 2 ELSE 1
 NoCl  == [on |-> FALSE, root |-> 0, ver |-> [ts |-> 0, sn |-> 0, tg |-> 0], meta |-> Absent, files |-> {}, exp |-> Fresh]
 NoDl  == [on |-> FALSE, tset |-> Absent]
 
@@ -114,23 +118,30 @@ Transfer(kind, v, e, allow) ==
 \* lib.rs load_root 1.9: when the final root's timestamp or snapshot keys differ from the shipped
 \* root's, the stored timestamp and snapshot are deleted -- on every refresh, as long as the client
 \* ships the old root (known finding F2-stale-shipped-root).
-RefreshResult ==
-  LET st == IF pub.rot = "online" THEN [cli EXCEPT !.ts = 0, !.sn = 0, !.sntg = 0] ELSE cli
+RefreshResult(newest) ==
+  LET \* a client shipping root 1 walks to the newest root; one shipping the newest root starts there.  Step 1.9
+      \* compares the SHIPPED root's online keys with the final root's
+      wipe == ~newest /\ pub.rot = "online"
+      st == IF wipe THEN [cli EXCEPT !.ts = 0, !.sn = 0, !.sntg = 0, !.epTs = 0, !.epSn = 0] ELSE cli
       v  == pub.ver
       e  == pub.exp      \* in every phase: rollback check, then expiry, then the document is stored
-  IN IF st.ts > v.ts THEN [ok |-> FALSE, err |-> "Older:timestamp", st |-> st]
+      cTs == IF st.epTs = Epoch THEN st.ts ELSE 0        \* what the stored documents still say
+      cSn == IF st.epSn = Epoch THEN st.sn ELSE 0
+      cSnTg == IF st.epSn = Epoch THEN st.sntg ELSE 0
+  IN IF cTs > v.ts THEN [ok |-> FALSE, err |-> "Older:timestamp", st |-> st]
      ELSE IF e.ts THEN [ok |-> FALSE, err |-> "Expired:timestamp", st |-> st]
-     ELSE LET s1 == [st EXCEPT !.ts = v.ts] IN
-     IF s1.sn > v.sn THEN [ok |-> FALSE, err |-> "Older:snapshot", st |-> s1]
-     ELSE IF s1.sntg > v.tg THEN [ok |-> FALSE, err |-> "Older:targets", st |-> s1]
+     ELSE LET s1 == [st EXCEPT !.ts = v.ts, !.epTs = Epoch] IN
+     IF cSn > v.sn THEN [ok |-> FALSE, err |-> "Older:snapshot", st |-> s1]
+     ELSE IF cSnTg > v.tg THEN [ok |-> FALSE, err |-> "Older:targets", st |-> s1]
      ELSE IF e.sn THEN [ok |-> FALSE, err |-> "Expired:snapshot", st |-> s1]
-     ELSE LET s2 == [s1 EXCEPT !.sn = v.sn, !.sntg = v.tg] IN
+     ELSE LET s2 == [s1 EXCEPT !.sn = v.sn, !.sntg = v.tg, !.epSn = Epoch] IN
      IF s2.tg > v.tg THEN [ok |-> FALSE, err |-> "Older:targets", st |-> s2]
      ELSE IF e.tg THEN [ok |-> FALSE, err |-> "Expired:targets", st |-> s2]
      ELSE [ok |-> TRUE, err |-> "", st |-> [s2 EXCEPT !.tg = v.tg]]
-Refresh ==
+Refresh(newest) ==
   /\ Can("refresh") /\ pub.on /\ last.act # "refresh"
-  /\ LET r == RefreshResult IN Step([act |-> "refresh"], r.ok, r.err, pub, r.st, cl, dl)
+  /\ (newest => pub.root = 2)         \* root 1 is the newest root until a transfer
+  /\ LET r == RefreshResult(newest) IN Step([act |-> "refresh", newest |-> newest], r.ok, r.err, pub, r.st, cl, dl)
   /\ UNCHANGED mono
 
 \* tuftool clone [-n name]...: a fresh client shipping root 1 loads the repository, saves the named
@@ -169,7 +180,7 @@ Next ==
   \/ ForeignResign
   \/ \E A \in SUBSET Names, c \in 1..MaxContent, v \in Vers, e \in Exps, al \in Allows : Update(A, c, v, e, al)
   \/ \E k \in Rotations, v \in Vers, e \in Exps, al \in Allows : Transfer(k, v, e, al)
-  \/ Refresh
+  \/ Refresh(FALSE) \/ Refresh(TRUE)
   \/ \E S \in (SUBSET Names) \ {{}}, al \in Allows : Clone(S, FALSE, al) \/ Download(S, FALSE, al)
   \/ \E al \in Allows : Clone({}, TRUE, al) \/ Download({}, TRUE, al)
 Spec == Init /\ [][Next]_vars
@@ -177,6 +188,7 @@ Spec == Init /\ [][Next]_vars
 -----------------------------------------------------------------------------
 TypeOK == /\ pub.on => pub.ver \in Vers
           /\ cli.ts \in 0..MaxVer /\ cli.sn \in 0..MaxVer /\ cli.tg \in 0..MaxVer /\ cli.sntg \in 0..MaxVer
+          /\ cli.epTs \in 0..2 /\ cli.epSn \in 0..2
 
 \* C17 at the command level: an update changes only what it was told to change
 UpdateKeeps ==
